@@ -74,6 +74,14 @@ StreamNext ==
     /\ Emit([op |-> "kahan.program", ty |-> "f32", nreg |-> 16, steps |-> TreeProg(Rep)])
     /\ Emit([op |-> "kahan.program", ty |-> "f64", nreg |-> 16, steps |-> TreeProg(Rep64)])
     /\ Emit([op |-> "kahan.program", ty |-> "f32", nreg |-> 8, steps |-> FoldProg(Rep)])
+    \* long folds of small partial registers with inexact partial sums: the accumulator as the left
+    \* (lfold) and as the right (rfold) operand of the merge - any merge order must keep the bound
+    /\ \A ty \in {"f32", "f64"} : \A dir \in {"lfold", "rfold"} : \A m \in {1000, IF Thorough THEN 1000000 ELSE 100000} :
+         /\ Emit([op |-> "kahan.program", ty |-> ty, nreg |-> 1,
+                  steps |-> << [a |-> dir, r |-> 1, xs |-> <<V(13421773, -27), V(13421773, -27), V(13421773, -27)>>, rep |-> m] >>])
+         /\ Emit([op |-> "kahan.program", ty |-> ty, nreg |-> 1,
+                  steps |-> << [a |-> "from", r |-> 1, x |-> V(1, 24)],
+                              [a |-> dir, r |-> 1, xs |-> <<V(3, 0), V(-1, 0), V(5, -2)>>, rep |-> m] >>])
     \* the statistics built on the compensated sums
     /\ \A ty \in {"f32", "f64"} : \A o \in {"asc", "interleave"} :
          LET n == IF ty = "f32" THEN Rep ELSE Rep64 IN
